@@ -202,6 +202,58 @@ impl<const N: usize> BDrv<N> {
                     };
                 }
             }
+            "read_exact" => {
+                // a provided method of the Read traits (an implementation may override it)
+                let k = dec(i).min(1 << 16);
+                let mut dst = vec![0xEEu8; k];
+                // (ok, eof, other error, pending)
+                let r: Option<(bool, bool, bool, bool)> = match fam.as_str() {
+                    "std" => call(&mut ev, None, || match std::io::Read::read_exact(b, &mut dst) {
+                        Ok(()) => (true, false, false, false),
+                        Err(e) => (false, e.kind() == std::io::ErrorKind::UnexpectedEof, e.kind() != std::io::ErrorKind::UnexpectedEof, false),
+                    }),
+                    #[cfg(feature = "eio")]
+                    "eio" => call(&mut ev, None, || match embedded_io::Read::read_exact(b, &mut dst) {
+                        Ok(()) => (true, false, false, false),
+                        Err(embedded_io::ReadExactError::UnexpectedEof) => (false, true, false, false),
+                        Err(_) => (false, false, true, false),
+                    }),
+                    #[cfg(feature = "eio-async")]
+                    "eio_async" => call(&mut ev, None, || match poll_once(embedded_io_async::Read::read_exact(b, &mut dst)) {
+                        Some(Ok(())) => (true, false, false, false),
+                        Some(Err(embedded_io_async::ReadExactError::UnexpectedEof)) => (false, true, false, false),
+                        Some(Err(_)) => (false, false, true, false),
+                        None => (false, false, false, true),
+                    }),
+                    _ => return,
+                };
+                if let Some((ok, eof, other, pend)) = r {
+                    ev.ret = Ret {
+                        k: if ok { "ok" } else if eof { "eof" } else if other { "err" } else { "pending" },
+                        b: pend,
+                        ids: if ok { dst.iter().map(|x| *x as i64).collect() } else { vec![] },
+                        ..Default::default()
+                    };
+                }
+            }
+            "write_all" => {
+                let data: Vec<u8> = gv(st, "vals").iter().map(|x| *x as u8).collect();
+                ev.vals = data.iter().map(|x| *x as i64).collect();
+                let r: Option<(bool, bool)> = match fam.as_str() {
+                    "std" => call(&mut ev, None, || (std::io::Write::write_all(b, &data).is_err(), false)),
+                    #[cfg(feature = "eio")]
+                    "eio" => call(&mut ev, None, || (embedded_io::Write::write_all(b, &data).is_err(), false)),
+                    #[cfg(feature = "eio-async")]
+                    "eio_async" => call(&mut ev, None, || match poll_once(embedded_io_async::Write::write_all(b, &data)) {
+                        Some(r) => (r.is_err(), false),
+                        None => (false, true),
+                    }),
+                    _ => return,
+                };
+                if let Some((err, pend)) = r {
+                    ev.ret = Ret { k: if err { "err" } else { "ok" }, b: pend, ..Default::default() };
+                }
+            }
             "fill_buf" => {
                 let r: Option<(Vec<u8>, Vec<i64>, bool, bool)> = {
                     let me: &BDrv<N> = unsafe { &*(self as *const BDrv<N>) };
